@@ -708,7 +708,10 @@ class PteraTransformer(NodeTransformer):
             x: int = _ptera_interact('x', int)
         """
         return self.make_interaction(
-            node.target, self._ann(node.annotation), node.value, orig=node
+            node.target,
+            self._ann(node.annotation),
+            node.value and self.visit(node.value),
+            orig=node,
         )
 
     def visit_Assign(self, node):
@@ -744,6 +747,9 @@ class PteraTransformer(NodeTransformer):
                     )
                 )
             return accum
+
+        # Assignment expressions and yields in the value are interactions too
+        node.value = self.visit(node.value)
 
         targets = node.targets
         if len(targets) > 1:
